@@ -217,7 +217,9 @@ def transposition(chk, prog):
     for p in prog.fns:
         if "delharc::" in p or p.endswith("Vec::<T, A>::push") or p.endswith("Vec::<T>::with_capacity"):
             w.opaque_paths.add(p)
-    w.arbitrary_iteration = lambda st, fr, s_, e_: fr.fn.path == VTXL and s_ is not e_ and any("fill_buffer" in e.path for e in st.trace)
+    # the copy loop may sit in Vtx::load itself or in a private helper of the crate it calls after decompression
+    w.arbitrary_iteration = lambda st, fr, s_, e_: (fr.fn.path == VTXL or (fr.fn.crate == "vtx" and fr.fn.local)) and s_ is not e_ and \
+        any("fill_buffer" in e.path for e in st.trace)
     rs = w.run(fn, [], genv={"R": ("param", "R", 0)}, state=w.new_state(), start_block=start)
     bad = [r for r in rs if r.outcome not in ("return", "cut")]
     if bad or not rs:
